@@ -137,7 +137,7 @@ def mutate(text, r):
     for _ in range(r.pick([0, 1, 2, 4])):
         if nums and r.below(2):
             i = r.pick(nums)
-            toks[i] = r.pick(FLTLITS) if ("." in toks[i] or "e" in toks[i].lower() and not toks[i].lower().startswith("0x")) else r.pick(INTLITS[:37])
+            toks[i] = r.pick(FLTLITS) if ("." in toks[i] or "e" in toks[i].lower() and not toks[i].lower().startswith("0x")) else r.pick(INTLITS[:37] + INTLITS[45:])
         elif opsi:
             i = r.pick(opsi)
             toks[i] = r.pick(["+", "-", "*", "/", "%", "<<", ">>", "<", ">", "<=", ">=", "&", "|", "^", "==", "!="])
@@ -146,7 +146,9 @@ def mutate(text, r):
 
 INTLITS = ["0", "1", "2", "3", "7", "8", "10", "31", "32", "63", "64", "127", "128", "255", "256", "32767", "32768", "65535", "65536", "2147483647", "2147483648",
            "4294967295", "4294967296", "9223372036854775807", "0x7fffffffffffffff", "0x8000000000000000", "0xffffffffffffffff", "18446744073709551615U",
-           "1U", "1L", "1UL", "1LL", "0xffu", "0x80000000", "0x80000000L", "077", "0b1011", "-1", "-2", "-128", "-2147483648L", "'a'", "'\\0'", "'\\377'", "'\\n'"]
+           "1U", "1L", "1UL", "1LL", "0xffu", "0x80000000", "0x80000000L", "077", "0b1011", "-1", "-2", "-128", "-2147483648L", "'a'", "'\\0'", "'\\377'", "'\\n'",
+           # character constants whose value does not fit a byte, or is written with several bytes
+           "'\\x80'", "'\\x1ff'", "'\\777'", "'\\xffff'", "'\u20ac'", "'\u3042'", "'ab'", "L'\\xffff'", "u'\u20ac'", "U'\\x10ffff'"]
 FLTLITS = ["(0.0/0.0)", "(1e308*10)", "(-(1e308*10))", "(-0.0)", "((1e308*10)-(1e308*10))", "(0.0f/0.0f)", "0.0", "1.0", "0.5", "1.5", "0.1", "2.5e-3", "1e10", "1e308", "1.7976931348623157e308", "4.9e-324", "1e-400", "3.4028235e38f", "1.17549435e-38f", "0.1f", "16777217.0f",
            "0x1p-1074", "0x1.fffffffffffffp1023", "0x1.8p1", "1e4932L", "3.14159265358979323846L", "9007199254740993.0", "123456789012345678.0", "5e-1", ".5", "5."]
 
